@@ -13,6 +13,7 @@ import NixModel.Drive.Props
 import NixModel.Drive.Frame
 import NixModel.Drive.Search
 import NixModel.Drive.Valid
+import NixModel.Drive.DimDesc
 /-
   nixmodel: reads a trace (op lines with the implementation's recorded result after `=>`),
   replays each op on the Lean model, evaluates the property relations on the implementation's
@@ -37,7 +38,8 @@ def handlers : List (DState → String → List String → List String → Optio
       { st' with smodel := { st'.smodel with store := st'.smodel.store.setAttr 0 "id" ((impl[1]?).getD "?") } } else st', o),
   Props.handle,
   Frame.handle,
-  Search.handle
+  Search.handle,
+  DimDesc.handle
 ]
 
 def step (st : DState) (line : String) : DState × Option String :=
